@@ -28,8 +28,10 @@ def generate(rng, length):
             ops.append(["insert", c, rng.randrange(10 ** 6)])
         elif x < 0.88:
             ops.append(["drop", c, rng.randrange(10 ** 6)])
-        elif x < 0.95:
+        elif x < 0.92:
             ops.append(["active"])
+        elif x < 0.95:
+            ops.append(["active_hold", c])
         else:
             ops.append(["global"])
     return header, ops
@@ -242,6 +244,17 @@ def run_history(header, ops, stats=None):
             if sorted(got) != sorted(expected):
                 raise Failure("active_part_not_independent_units", index, {"got": got, "expected": expected})
             bump("active")
+        elif kind == "active_hold":
+            # a client keeps (and may later mutate) the branches of the active part
+            for branch in handler.extract_active_global_state():
+                shadow = {}
+                for cnode in _walk(branch):
+                    ident = tuple(cnode.value.identifier)
+                    if _record(cnode.value) != model[ident]:
+                        raise Failure("active_branch_values_not_current", index, {"identifier": ident})
+                    shadow[ident] = model[ident]
+                held[op[1]].append([branch, shadow])
+            bump("active_hold")
         elif kind == "global":
             bump("global")
         check_global(index, kind)
